@@ -179,6 +179,49 @@ def judge (c : Config) : Obs → List String
     strClause "rcmd" c.rcmd (c.dfltRcmd.getD "none".toList) rc ++
     (if c.pcp then strClause "path" c.path c.dfltPath pa else [])
 
+/-! ### the settings where they TAKE EFFECT (what a target is actually contacted with) -/
+
+/-- the remote user in force for a target: the one the target names itself (`user@host`), else the setting —
+    command line (-l), else the default — wherever the options stand on the command line -/
+def userInForce (c : Config) (own : Option Str) : Str :=
+  match own with
+  | some u => u
+  | none => c.ruser.getD c.dfltUser
+
+/-- a target was contacted as `observed` -/
+def judgeUser (c : Config) (own : Option Str) (observed : Str) : List String :=
+  if observed = userInForce c own then []
+  else
+    match own, c.ruser with
+    | some _, _ => ["ruser:target:not-used"]
+    | none, some _ => ["ruser:cmdline:not-used"]
+    | none, none => ["ruser:default:not-used"]
+
+/-- the number of commands that were seen running at the same time, `wanted` = as many targets as the fanout in
+    force allows (the generator gives more targets than that) -/
+def judgeFanoutUsed (c : Config) (peak : Int) : List String :=
+  let inForce : Option Int := match c.fanout.chosen with
+    | some (_, t) => CInt.denotes t
+    | none => some c.dfltFanout
+  match inForce, c.fanout.chosen with
+  | some f, some (src, _) => if peak = f then [] else [s!"fanout:{src.name}:not-used"]
+  | some f, none => if peak = f then [] else ["fanout:default:not-used"]
+  | none, _ => []
+
+/-- a command that runs longer than `short` seconds and shorter than `long` seconds: was it cut short? -/
+def judgeTimeoutUsed (c : Config) (short long : Int) (cut : Bool) : List String :=
+  let inForce : Option Int := match c.utmo.chosen with
+    | some (_, t) => CInt.denotes t
+    | none => some c.dfltUtmo
+  let name := match c.utmo.chosen with | some (src, _) => src.name | none => "default"
+  match inForce with
+  | some t =>
+    -- 0 = no limit
+    if t ≠ 0 && t ≤ short then (if cut then [] else [s!"command_timeout:{name}:not-applied"])
+    else if t = 0 || t ≥ long then (if cut then [s!"command_timeout:{name}:other-limit-applied"] else [])
+    else []
+  | none => []
+
 /-- which of the two conflicting test modules must be active given the module-selection texts -/
 def miscExpected (c : Config) : Str :=
   match c.misc.chosen with
